@@ -38,7 +38,7 @@ from vlib.core import Soft, Sub
 PROPERTY_ID = "C02"
 LEVEL = "exploration"
 RULE = (
-    "A case is a tree (3-6 tips, root degree 2-4, internal degree 2-4, branch lengths log-uniform in [1e-3, 3] with a share of "
+    "A case is a tree (3-6 tips, root degree 2-4, internal degree 2-4; polytomy = root degree 4 or an internal node with 3-4 children; branch lengths log-uniform in [1e-3, 3] with a share of "
     "1e-6..1e-4 and 3..10), a continuous-time model (every registered nucleotide, codon and protein model, generated reversible / "
     "non-reversible nucleotide models built from predicates, generated dinucleotide models with tuple / monomer / conditional motif "
     "probabilities), parameter values log-uniform inside the declared bounds, non-uniform motif probabilities, a configuration "
@@ -56,8 +56,11 @@ ASSUMPTIONS = [
     "continuous-time models only (the discrete-time BH / DT entries of cogent3.evolve.models.models are outside the statement)",
     "rate parameters are drawn log-uniformly from [1e-2, 1e2] (80 %) or the full declared range [1e-6, 1e6] (20 %); branch lengths from [1e-6, 10] "
     "(declared bounds [0, 10]); motif probabilities are >= 1/(20 n) so the 1e-6 floor applied by set_motif_probs never acts; JC69 / K80 keep their equal frequencies",
-    "lnL compared at 1e-9 * max(1, |lnL|); per-column likelihoods at rtol 1e-8; Q entries at rtol 1e-9 relative to the largest entry; P entries at atol 2e-9; "
-    "sum over all columns = 1 at 1e-9",
+    "rate matrices compared at 1e-9 relative to the largest entry; P matrices at 2e-9 absolute; lnL at 1e-9 * max(1, |lnL|) and column likelihoods at 1e-9 relative, each plus a "
+    "floating-point allowance L(P + delta) - L(P) (every term of the sum-product is non-negative, so this bounds the effect of an entrywise error delta in P), with "
+    "delta = 2 * max(1e-15, largest observed deviation of the reported P from the harness P, capped at 2e-9); sum over all columns = 1 at 1e-9",
+    "a P deviation above 2e-9 that occurs with the default exponentiator on a rate matrix whose eigenvector matrix has condition number > 1e5 is reported under the single "
+    "signature psub/eigen-precision; for such a case delta is capped at 1e-6 instead, so that the lnL / column clauses still test the pruning and do not repeat the same root cause",
     "degenerate symbols and gaps are the set of compatible states (gap, ?, N / X = all states; a degenerate codon = the sense codons it matches, "
     "generated so that this set is never empty, since all-stop codons are rejected by design); codon alignments contain no stop codon",
     "the CpG predicate of the H04 models and of generated dinucleotide models follows the MotifChange semantics 'exactly one CG-containing window covers the changed "
